@@ -98,9 +98,10 @@ func overlapPartner(r *Rng, routes []genRoute, gr genRoute) *genRoute {
 		ok := true
 		for k := range o.toks {
 			a, b := o.toks[k], gr.toks[k]
+			rxVar := func(x, v tplTok) bool { return x.kind == 2 && v.kind == 1 } // a constrained and a plain variable
 			sufOK := func(v, l tplTok) bool { return v.kind == 3 && l.kind == 0 && strings.HasSuffix(l.text, v.suf) }
 			if a.verb != "" || b.verb != "" || (a.kind == 0 && b.kind == 0 && a.text != b.text) ||
-				((a.kind > 1 || b.kind > 1) && !sufOK(a, b) && !sufOK(b, a)) {
+				((a.kind > 1 || b.kind > 1) && !sufOK(a, b) && !sufOK(b, a) && !rxVar(a, b) && !rxVar(b, a)) {
 				ok = false
 				break
 			}
